@@ -1,5 +1,9 @@
 package lzhuf
 
+import "io"
+
+var errEOF = io.EOF
+
 // C08 K3 / C07 K2c: a match code with an arbitrary 12-bit position early in the
 // stream, i.e. also positions no canonical encoder emits (references into the
 // part of the window that has not been written yet, positions beyond the
@@ -9,9 +13,18 @@ package lzhuf
 // The header stays symbolic as in H_reader_safe: all 2^32 declared sizes, all
 // 2^16 CRC values.  Obligations: those of H_reader_safe (checkReader).
 func H_reader_match() {
+	if symParam("PREV", 0) == 1 {
+		// another message was decompressed (and its Reader closed) earlier in
+		// this process: nothing of it may show in what follows
+		prev := []byte("the previous message: QQQQQQQQQQQQQQQQQQQQQQQQQQQQQQQQQQQQQQQQQQQQQQQQQQQQQQQQQQQQQQQQQQQQQQQQQQ")
+		pz, err := compress(prev, len(prev), true)
+		symAssert(err == nil, "writer-close-ok")
+		out, rerr, cerr := decompress(pz, true, 64, len(prev)+3)
+		symAssert(rerr == nil && cerr == nil && sameBytes(out, prev), "roundtrip-reproduces-input")
+	}
 	npre := symInt(0, symParam("NPRE", 1))
 	length := [...]int{3, 60, 4, 59}[symInt(0, symParam("NLEN", 2)-1)]
-	pos := symInt(0, 4095)
+	pos := symInt(symParam("POSMIN", 0), symParam("POSMAX", 4095))
 	b2 := symInt(0, 1) == 1
 
 	z := new(refLZ)
@@ -38,4 +51,110 @@ func H_reader_match() {
 		hdr = 6
 	}
 	checkReader(in, b2, hdr, delta, [...]int{64, 1}[symInt(0, 1)], symInt(0, symParam("STOP", 1)))
+}
+
+// a source with a selectable io.Reader convention: everything at once and
+// then (0, EOF); the last bytes together with io.EOF; one byte per call; a
+// (0, nil) before every byte.  All of them are legal io.Readers.
+type modeReader struct {
+	b    []byte
+	mode int
+	flip bool
+}
+
+func (r *modeReader) Read(p []byte) (int, error) {
+	if len(p) == 0 {
+		return 0, nil
+	}
+	switch r.mode {
+	case 1: // data and EOF in the same call
+		n := copy(p, r.b)
+		r.b = r.b[n:]
+		if len(r.b) == 0 {
+			return n, errEOF
+		}
+		return n, nil
+	case 2, 3:
+		if r.mode == 3 {
+			r.flip = !r.flip
+			if r.flip {
+				return 0, nil
+			}
+		}
+		if len(r.b) == 0 {
+			return 0, errEOF
+		}
+		p[0] = r.b[0]
+		r.b = r.b[1:]
+		return 1, nil
+	}
+	if len(r.b) == 0 {
+		return 0, errEOF
+	}
+	n := copy(p, r.b)
+	r.b = r.b[n:]
+	return n, nil
+}
+
+// C06 K1e / C07: the decompressor reproduces the input whatever (legal)
+// convention the compressed source follows when delivering its bytes.
+func H_roundtrip_sources() {
+	N := symParam("N", 3)
+	n := symInt(0, N)
+	in := make([]byte, n)
+	for i := range in {
+		in[i] = symAlphaByte(5)
+	}
+	b2 := symInt(0, 1) == 1
+	z, err := compress(in, n, b2)
+	symAssert(err == nil, "writer-close-ok")
+	src := &modeReader{b: z, mode: symInt(0, 3)}
+	bufsz := [...]int{64, 1}[symInt(0, 1)]
+	r, err := NewReader(src, b2)
+	symAssert(err == nil, "header-accepted")
+	var out []byte
+	for calls := 0; ; calls++ {
+		symAssert(calls <= n+4, "read-loop-terminates")
+		p := make([]byte, bufsz)
+		m, rerr := r.Read(p)
+		out = append(out, p[:m]...)
+		if rerr != nil {
+			symAssert(rerr == errEOF, "reader-no-error")
+			break
+		}
+	}
+	symAssert(r.Close() == nil, "reader-close-ok")
+	symAssert(sameBytes(out, in), "roundtrip-reproduces-input")
+	symReach("end")
+}
+
+// C06 K1f / C07: run-length and short-period inputs far longer than the window
+// (the best case of the codec: about 47 output bytes per compressed byte).
+func H_roundtrip_runs() {
+	R := [...]int{2100, 9000, 20000, 70000}[symInt(0, symParam("NR", 2)-1)]
+	b := symAlphaByte(5)
+	period := symInt(1, 3)
+	in := make([]byte, R)
+	for i := range in {
+		if i%period == 0 {
+			in[i] = b
+		} else {
+			in[i] = byte('x' + i%period)
+		}
+	}
+	symBudget(2000000000)
+	b2 := symInt(0, 1) == 1
+	hdr := 4
+	if b2 {
+		hdr = 6
+	}
+	z, err := compress(in, len(in), b2)
+	symAssert(err == nil, "writer-close-ok")
+	out, rerr, cerr := decompress(z, b2, 64, len(in)+3)
+	symAssert(rerr == nil, "reader-no-error")
+	symAssert(cerr == nil, "reader-close-ok")
+	symAssert(sameBytes(out, in), "roundtrip-reproduces-input")
+	ref, _ := refDecode(z[hdr:], len(in), len(in)+64)
+	symAssert(sameBytes(ref, in), "reference-decoder-reproduces-input")
+	symReach("end")
 }
